@@ -160,7 +160,12 @@ SumLens(ord, k) == IF k = 0 THEN 0 ELSE SerLen(ord[k]) + SumLens(ord, k - 1)
 VarLen(msg) == LET ord == Order(msg) IN SumLens(ord, Len(ord))
 FlatLen(msg) == VarLen(msg) + msg.S
 IndexIn(ord, wi) == CHOOSE k \in 1..Len(ord) : ord[k].wi = wi
-StartPos(msg) == LET ord == Order(msg) IN [i \in 1..Len(ord) |-> SumLens(ord, IndexIn(ord, i) - 1)]
+RECURSIVE StartAcc(_, _, _, _)
+StartAcc(ord, k, off, f) == IF k > Len(ord) THEN f ELSE StartAcc(ord, k + 1, off + SerLen(ord[k]), (ord[k].wi :> off) @@ f)
+StartPosOf(ord) == StartAcc(ord, 1, 0, <<>>)          \* wi -> where the field's bytes start in the flat serialization
+StartPos(msg) == StartPosOf(Order(msg))
+\* everything that depends on the schema only, computed once per message
+Cx(msg) == LET dfs == Dfs(msg)  ord == OrderOf(dfs) IN [dfs |-> dfs, ord |-> ord, sp |-> StartPosOf(ord), S |-> msg.S, ck |-> msg.ck]
 \* pieces pushed by SerializerIOV (empty buffers are not pushed; an iovec_array pushes its elements)
 RECURSIVE PiecesOf(_, _)
 PiecesOf(ord, k) ==
@@ -189,11 +194,13 @@ StepLeaf(st, L, W) ==
   LET w == W[L.wi] IN
   IF L.dep # 0 /\ st.res[L.dep].where \notin {"in", "copy"}
   THEN \* element of an array whose claim did not deliver memory
-       IF KF_ArrayWalk /\ st.res[L.dep].where = "null" /\ L.ei <= ElemCount(L, W)
-       THEN [st EXCEPT !.crashed = TRUE]          \* walks elements at address 0 + i*sizeof(T)   (serialize.h:325)
-       ELSE st
+       st
   ELSE IF L.dep # 0 /\ L.ei > ElemCount(L, W) THEN st
-  ELSE IF Skipped(L) THEN [st EXCEPT !.res[L.wi] = IF w = 0 THEN R("empty", 0, 0) ELSE R("wire", 0, w)]
+  ELSE IF Skipped(L)
+  THEN \* nothing is done: the receiver sees the sender's pointer and lengths.  An iovec_array also carries the byte length of
+       \* its iovec[]: non-zero iff it has elements (an honest one may have elements that are all empty)
+       LET some == IF L.k = "aiov" /\ w = L.n THEN Len(L.lens) > 0 ELSE w > 0 IN
+       [st EXCEPT !.res[L.wi] = IF some THEN R("wire", 0, w) ELSE R("empty", 0, 0)]
   ELSE IF L.k \in {"iov", "aiov"}
   THEN \* DeserializerIOV::process_field(iovec_array&): extract_front(summed_size, &view)   (serialize.h:446)
        IF w = 0 THEN [st EXCEPT !.res[L.wi] = [R("iov", 0, 0) EXCEPT !.pieces = <<>>]]
@@ -207,7 +214,9 @@ StepLeaf(st, L, W) ==
        ELSE IF w = 0 THEN [st EXCEPT !.res[L.wi] = R("empty", 0, 0)]
        ELSE LET r == FrontCont(st.els, w) IN
             IF r.ok THEN [st EXCEPT !.els = r.els, !.res[L.wi] = R(r.where, r.pos, w)]
-            ELSE [st EXCEPT !.failed = TRUE, !.res[L.wi] = R("null", 0, w)]
+            ELSE [st EXCEPT !.failed = TRUE, !.res[L.wi] = R("null", 0, w),
+                            \* as shipped: _len stays, so ArchiveBase walks w / sizeof(T) messages at address 0 (serialize.h:325)
+                            !.crashed = @ \/ (KF_ArrayWalk /\ L.k = "arrm" /\ w \div L.es >= 1)]
 
 RECURSIVE Run(_, _, _, _)
 Run(ord, k, st, W) == IF k > Len(ord) THEN st ELSE Run(ord, k + 1, StepLeaf(st, ord[k], W), W)
@@ -242,14 +251,14 @@ Covered(els, bpos, S, p) == (~KF_Checksum /\ \E k \in 1..Len(els) : els[k].o <= 
 \* DeserializerIOV::deserialize<T>(iov): part = lengths of the iovec elements supplied; alt = position of a byte
 \* that differs from what the sender produced, or -1 (the sender's checksum is over every byte it sent, with the
 \* checksum field itself zero: add_checksum, serialize.h:261)
-Deser(msg, W, SL, part, alt) ==
-  LET b == BackCont(PartEls(part), msg.S) IN      \* iov->extract_back<T>()
-  IF ~b.ok THEN [out |-> "fail", body |-> R("null", 0, msg.S), res |-> <<>>]
-  ELSE IF msg.ck /\ alt >= 0 /\ Covered(b.els, b.pos, msg.S, alt)             \* validate_checksum (serialize.h:266)
-  THEN [out |-> "fail", body |-> R(b.where, b.pos, msg.S), res |-> <<>>]
-  ELSE LET dfs == Dfs(msg)
-           st == FinishOf(dfs, Run(OrderOf(dfs), 1, InitStN(Len(dfs), b.els), W), W, SL) IN
-       [out |-> Outcome(st), body |-> R(b.where, b.pos, msg.S), res |-> st.res]
+DeserC(cx, W, SL, part, alt) ==
+  LET b == BackCont(PartEls(part), cx.S) IN      \* iov->extract_back<T>()
+  IF ~b.ok THEN [out |-> "fail", body |-> R("null", 0, cx.S), res |-> <<>>]
+  ELSE IF cx.ck /\ alt >= 0 /\ Covered(b.els, b.pos, cx.S, alt)             \* validate_checksum (serialize.h:266)
+  THEN [out |-> "fail", body |-> R(b.where, b.pos, cx.S), res |-> <<>>]
+  ELSE LET st == FinishOf(cx.dfs, Run(cx.ord, 1, InitStN(Len(cx.dfs), b.els), W), W, SL) IN
+       [out |-> Outcome(st), body |-> R(b.where, b.pos, cx.S), res |-> st.res]
+Deser(msg, W, SL, part, alt) == DeserC(Cx(msg), W, SL, part, alt)
 
 (* ------------------------------------------------------------------ *)
 (* reference: what C12 states, on any result (model or recorded)       *)
@@ -266,10 +275,10 @@ FieldDelivered(L, r, sp) ==
   THEN r.where = "iov" /\ r.len = L.n /\ (L.n = 0 \/ Consecutive(r.pieces, 1, sp) = sp + L.n)
   ELSE IF L.n = 0 THEN r.where = "empty" /\ r.len = 0
   ELSE r.where \in {"in", "copy"} /\ r.len = L.n /\ (r.pos = sp \/ (r.where = "copy" /\ r.pos = -2))   \* -2: recorded copy whose source is ambiguous
-RoundTripBad(msg, d) ==       \* set of word indexes whose field did not arrive (0 = whole message refused)
+RoundTripBadC(cx, d) ==       \* set of word indexes whose field did not arrive (0 = whole message refused)
   IF d.out # "ok" THEN {0}
-  ELSE LET dfs == Dfs(msg)  sp == StartPos(msg) IN
-       {i \in 1..Len(dfs) : ~FieldDelivered(dfs[i], d.res[i], sp[i])}
+  ELSE {i \in 1..Len(cx.dfs) : ~FieldDelivered(cx.dfs[i], d.res[i], cx.sp[i])}
+RoundTripBad(msg, d) == RoundTripBadC(Cx(msg), d)
 \* the same, phrased on byte ids (used by the model checker to show both formulations agree)
 ContentIds(ids, r) == IF r.where \in {"in", "copy"} THEN SubSeq(ids, r.pos + 1, r.pos + r.len)
                       ELSE IF r.where = "iov" THEN
@@ -292,11 +301,12 @@ ExtentOK(L, r, els) ==
        ELSE IF r.where = "in" THEN r.len >= need /\ InElement(els, r.pos, r.len)
        ELSE IF r.where = "copy" THEN r.len >= need
        ELSE FALSE                                           \* "null" / "wire" with a non-zero length
-HostileBad(msg, W, SL, part, d) ==     \* set of problems; {} = contained
+HostileBadC(cx, W, SL, part, d) ==     \* set of problems; {} = contained
   IF d.out = "crash" THEN {"crash"}
   ELSE IF d.out = "fail" THEN {}
-  ELSE LET dfs == Dfs(msg)  els == PartEls(part) IN
+  ELSE LET dfs == cx.dfs  els == PartEls(part) IN
        {<<"field", i>> : i \in {j \in 1..Len(dfs) : ~ExtentOK(dfs[j], d.res[j], els)}}
        \cup {<<"slice", e>> : e \in BadSlicesOf(dfs, W, SL)}
+HostileBad(msg, W, SL, part, d) == HostileBadC(Cx(msg), W, SL, part, d)
 
 =============================================================================
